@@ -56,8 +56,12 @@ class _TimePoint:
 
 
 def _state(names):
-    """dict {k: k} built by comprehension (CrossHair keeps symbolic keys un-hashed)"""
-    return {k: k for k in names}
+    """{k: k}; created through dict() so that under CrossHair it is a scan-based map even when empty (a `{}`
+    literal would hash, i.e. realise, the first symbolic key stored into it); a plain dict on replay"""
+    d = dict()
+    for k in names:
+        d[k] = k
+    return d
 
 
 def _names_ok(*names):
@@ -122,6 +126,11 @@ def _cell_kind(kind):
     return k is None or kind == k
 
 
+def _cell_kind_b(kind):
+    k = R.env_int("VP_KINDB")
+    return k is None or kind == k
+
+
 def _cell_m(m):
     k = R.env_int("VP_MARKERS")
     return k is None or m == k
@@ -132,7 +141,7 @@ def onset_time_point(n1: str, open1: bool, m: int, kind_a: int, name_a: str, def
     """
     pre: 0 <= m <= 2 and _cell_m(m)
     pre: 0 <= kind_a <= 2 and 0 <= kind_b <= 2
-    pre: _cell_kind(kind_a)
+    pre: _cell_kind(kind_a) and _cell_kind_b(kind_b)
     pre: _names_ok(n1, name_a, name_b)
     pre: ref.is_folded(n1)
     post: _
@@ -154,6 +163,10 @@ def onset_time_point(n1: str, open1: bool, m: int, kind_a: int, name_a: str, def
         return False
     return _post_state_ok(ov, want)
 
+
+# disjoint cover of m in 0..2 x kinds: m=0 one cell; m=1 by kind_a; m=2 by (kind_a, kind_b)
+_TP_CELLS = ([{"VP_MARKERS": 0}] + R.product_cells([{"VP_MARKERS": 1}], R.int_cells("VP_KIND", 0, 2))
+             + R.product_cells([{"VP_MARKERS": 2}], R.int_cells("VP_KIND", 0, 2), R.int_cells("VP_KINDB", 0, 2)))
 
 _T_STEP = ["hed.validator.onset_validator.OnsetValidator._handle_onset_or_offset"]
 _T_TP = ["hed.validator.onset_validator.OnsetValidator.validate_temporal_relations",
@@ -178,11 +191,11 @@ HARNESSES = [
         outside="names longer than the bound, non-ASCII names; more than two other open names (frame argument: "
                 "the effect on any one other key is what is asserted)"),
     R.H("onset_time_point", _T_TP,
-        quick=R.tier(cells=R.product_cells(R.int_cells("VP_MARKERS", 0, 2), R.int_cells("VP_KIND", 0, 2)),
+        quick=R.tier(cells=_TP_CELLS,
                      env={"VP_N": 1, "VP_MINLEN": 1}, timeout=120,
                      bound="one time point with 0..2 temporal groups (each with or without a Def tag), any kinds, "
                            "from a state with one other name open or not; names exactly 1 printable-ASCII char"),
-        thorough=R.tier(cells=R.product_cells(R.int_cells("VP_MARKERS", 0, 2), R.int_cells("VP_KIND", 0, 2)),
+        thorough=R.tier(cells=_TP_CELLS,
                         env={"VP_N": 2}, timeout=1100, path_timeout=60,
                         bound="as quick with names of 0..2 printable-ASCII characters"),
         what="markers of one time point act in order like single steps; a name already used in the time point "
